@@ -2,6 +2,8 @@
 From Coq Require Import List Bool Arith Lia.
 From Annet Require Import Model.Pool Spec.P_C12 Proofs.PoolProofs.
 Import ListNotations.
+Local Arguments Nat.mul : simpl never.
+Local Arguments Nat.add : simpl never.
 
 (* ================================================================================================ *)
 (* The parent always has a step until its loop has ended. *)
@@ -108,7 +110,9 @@ Proof.
     (split; [intros _ | intros El; try discriminate El]);
     unfold mu, weight; simpl;
     try (pose proof (Forall_nth_error _ _ _ _ _ HW Hn) as Hw;
-         match goal with |- context [upd (ws s) i ?w'] => pose proof (ws_weight_upd (ws s) i w w' Hn) as U end;
+         match goal with |- context [upd (ws s) i ?w'] =>
+                         pose proof (ws_weight_upd (ws s) i w w' Hn) as U;
+                         set (UU := ws_weight (upd (ws s) i w')) in *; clearbody UU end;
          unfold w_weight, wset in U; simpl in U).
   - destruct (alive_in_pool w Hw) as [Ein Eret]; [intros c; congruence|].
     rewrite Ein, Eret, Hst in U. rewrite Htq. simpl in *. lia.
